@@ -61,6 +61,71 @@ BIN_TYPES = {"probing": ("P", ["probing"]), "trie": ("T", ["trie"]), "trie-a": (
              "trie-q": ("Q", ["-q", "8", "-b", "8", "trie"])}
 
 
+QUANT_BITS = [(3, 5), (5, 3), (8, 6), (4, 10), (6, 8), (10, 4)]
+
+
+def quant_bits_sweep(ctx, hexe, dexe, bb, work, quick):
+    """QuantTrie / QuantArrayTrie with prob_bits != backoff_bits in both directions, on models whose per-order entry counts
+    fit the bins (lossless: bit-exact comparison with the L0 oracle applies), loaded from ARPA and from the reloaded binary."""
+    found = False
+    combos = QUANT_BITS[:4] if quick else QUANT_BITS
+    for (q, b) in combos:
+        case = lmgen.gen_quantbits_case(ctx.rng, q, b)
+        path = lmq.write_case(case, work, "qb%d_%d" % (q, b))
+        ops = lmq.make_ops(path, case, classes="QB", extra=" pbits=%d bbits=%d" % (q, b))
+        (rc1, o1, e1), (rc2, o2, e2) = lmq.run_both(hexe, dexe, ops)
+        ctx.hist("lm.quantbits", "q=%d,b=%d" % (q, b))
+        payload = {"stream": "quant-bits", "meta": case.meta, "options": "-q %d -b %d" % (q, b),
+                   "generator": "lmgen.gen_quantbits_case(q=%d, b=%d)" % (q, b), "arpa": case.arpa.decode(), "queries": case.queries[:20]}
+        if rc1 != 0 or rc2 != 0:
+            ctx.violation("quant-bits: harness or driver died (harness rc=%s, driver rc=%s)" % (rc1, rc2),
+                          dict(payload, harness_stderr=e1[-1200:], driver_stderr=e2[-800:]))
+            found = True
+            continue
+        probs, st = lmq.compare(case, o1, o2, classes="QB", want=("oracle",), pbits=q, bbits=b)
+        ctx.hist("lm.quantbits.qfit", st.get("qfit"))
+        ctx.count(("quant-bits", q, b, case.arpa), nontrivial=bool(st.get("qfit")), n=max(1, st["words"]))
+        if not st.get("qfit"):
+            ctx.violation("quant-bits: the generated model does not fit the bins (generator defect)", payload)
+            found = True
+            continue
+        if probs:
+            p = probs[0]
+            ctx.violation("quant-bits: %s with -q %d -b %d disagrees with the ARPA recursion although every order fits the bins (%s)"
+                          % (lmq.NAMES[p.get("cls", "Q")], q, b, p["kind"]), dict(payload, first_problem=p, n_problems=len(probs)))
+            found = True
+            continue
+        if not bb:
+            continue
+        for cls, targs in (("Q", ["-q", str(q), "-b", str(b), "trie"]), ("B", ["-a", "22", "-q", str(q), "-b", str(b), "trie"])):
+            wm = ctx.rng.choice(["after", "mmap"])
+            out = os.path.join(work, "qb%d_%d.%s.bin" % (q, b, cls))
+            cmd = [bb, "-s", "-i", "-w", wm] + targs + [path, out]
+            rc, so, se = sh(cmd, timeout=120)
+            if rc != 0:
+                ctx.violation("quant-bits: build_binary failed (rc=%s)" % rc, dict(payload, cmd=cmd, stderr=se[-1000:]))
+                found = True
+                continue
+            rcb, ob, eb = stream.run_lines(hexe, ["bin %s %s" % (out, cls)] + ops[1:], 300)
+            try:
+                os.unlink(out)
+            except OSError:
+                pass
+            if rcb != 0:
+                ctx.violation("quant-bits: harness died on a binary file", dict(payload, cmd=cmd, stderr=eb[-1000:]))
+                found = True
+                continue
+            ob[0] = ob[0].replace("bin ", "arpa ", 1)
+            probs, st2 = lmq.compare(case, ob, o2, classes=cls, want=("oracle",), pbits=q, bbits=b)
+            ctx.count(("quant-bits", "bin", cls, q, b, case.arpa), nontrivial=True, n=max(1, st2["words"]))
+            if probs:
+                p = probs[0]
+                ctx.violation("quant-bits: %s reloaded from its binary file (-q %d -b %d, -w %s) disagrees (%s)"
+                              % (lmq.NAMES[cls], q, b, wm, p["kind"]), dict(payload, cmd=cmd, first_problem=p, n_problems=len(probs)))
+                found = True
+    return found
+
+
 def binary_round_trip(ctx, case, path, ops, model_lines, hexe, bb, work, ci, want, tag):
     """"model read from ARPA or from its binary file": build_binary with both write methods, RELOAD the binary and compare
     with the L0 oracle (and the model's structure) exactly like the ARPA-loaded classes.  Models without <unk> get every
@@ -192,6 +257,8 @@ def lm_stream(ctx, hexe, dexe, n_cases, size, want=("oracle", "struct", "spec"),
                            "options": {"mult": case.mult, "abits": case.abits}, "meta": case.meta,
                            "replay": "write arpa to a file; feed `arpa <file> mult=.. abits=..` and `q <start> <words>` to the harness and driver"})
             found = True
+    if tag == "lm-query":
+        found = quant_bits_sweep(ctx, hexe, dexe, bb, work, ctx.tier == "quick") or found
     return found
 
 
